@@ -28,10 +28,17 @@ class Link:
         self.closing = False
         self.chunks = 0
 
-    def write(self, data):
+    def write(self, data, stall_at=None, stall_us=0):
+        """stall_at / stall_us: the link stalls for stall_us after the first
+        stall_at bytes of this write (everything behind waits, in order)."""
         sim = self.sim
         ch = sim.ch
         data = bytes(data)
+        if stall_at is not None and 0 < stall_at < len(data):
+            self.write(data[:stall_at])
+            self.last_t = max(self.last_t, sim.now) + stall_us
+            self.write(data[stall_at:])
+            return
         self.sent += data
         if self.filter is not None:
             data = self.filter(data)
